@@ -14,7 +14,7 @@ import (
 )
 
 // blameCorrespondenceSg re-judges, with the Lean model Core/BlameSg, what every honest signer of a 3-signer
-// threshold-ECDSA run concludes about its peers in rounds 2, 3, 5 and 7 ("continue" or the error's culprits), from
+// threshold-ECDSA run concludes about its peers in rounds 2, 3, 5, 7 and 9 ("continue" or the error's culprits), from
 // the message fields it received, in runs where one signer alters one field of one message.
 func blameCorrespondenceSg(r *Run, rng *rand.Rand, thorough bool) {
 	eks := fixtureEcKeys()
@@ -32,10 +32,11 @@ func blameCorrespondenceSg(r *Run, rng *rand.Rand, thorough bool) {
 		{"SignRound1Message2", "commitment", "+1", 0}, {"SignRound4Message", "de_commitment", "+1", 1}, {"SignRound4Message", "proof_t", "+1", 0}, {"SignRound4Message", "proof_alpha_x", "+1", 0},
 		{"SignRound4Message", "de_commitment", "negp", 2},
 		{"SignRound5Message", "commitment", "random", 0}, {"SignRound6Message", "de_commitment", "+1", 3}, {"SignRound6Message", "proof_t", "+1", 0}, {"SignRound6Message", "v_proof_u", "+1", 0},
-		{"SignRound6Message", "v_proof_alpha_y", "negp", 0}}
+		{"SignRound6Message", "v_proof_alpha_y", "negp", 0},
+		{"SignRound7Message", "commitment", "+1", 0}, {"SignRound8Message", "de_commitment", "+1", 1}, {"SignRound8Message", "de_commitment", "negp", 4}}
 	if !thorough {
 		s := int(r.Seed)
-		tweaks = []tw{tweaks[1+s%3], tweaks[4+s%5], tweaks[9+s%5], tweaks[14+s%5]}
+		tweaks = []tw{tweaks[1+s%3], tweaks[4+s%5], tweaks[9+s%5], tweaks[14+s%5], tweaks[19+s%3]}
 	}
 	for ti, t := range tweaks {
 		msg := new(big.Int).Mod(randInt(rng, 256), q)
@@ -92,6 +93,8 @@ func sgJudge(r *Run, net *Net, i int, nd *Node, fullKey ecdsakeygen.LocalPartySa
 		m4  *ecdsasigning.SignRound4Message
 		m5  *ecdsasigning.SignRound5Message
 		m6  *ecdsasigning.SignRound6Message
+		m7  *ecdsasigning.SignRound7Message
+		m8  *ecdsasigning.SignRound8Message
 	}
 	in := make([]pin, n)
 	set := func(p *pin, c interface{}) {
@@ -110,6 +113,10 @@ func sgJudge(r *Run, net *Net, i int, nd *Node, fullKey ecdsakeygen.LocalPartySa
 			p.m5 = c
 		case *ecdsasigning.SignRound6Message:
 			p.m6 = c
+		case *ecdsasigning.SignRound7Message:
+			p.m7 = c
+		case *ecdsasigning.SignRound8Message:
+			p.m8 = c
 		}
 	}
 	for _, d := range net.Delivered {
@@ -261,5 +268,21 @@ func sgJudge(r *Run, net *Net, i int, nd *Node, fullKey ecdsakeygen.LocalPartySa
 		return fmt.Sprintf("%d/%s/%s/%s:%s/%s/%s:%s/%s/%s", j, natHex(p.m5.GetCommitment()), natsHex(p.m6.GetDeCommitment()), natHex(p.m6.GetProofAlphaX()), natHex(p.m6.GetProofAlphaY()),
 			natHex(p.m6.GetProofT()), natHex(p.m6.GetVProofAlphaX()), natHex(p.m6.GetVProofAlphaY()), natHex(p.m6.GetVProofT()), natHex(p.m6.GetVProofU())), true
 	})
-	judge(7, "ec_sg_round7", ok7 && bigR != nil, func() []string { return []string{eBytes(ssid), ePoint(bigR), p7} })
+	if !judge(7, "ec_sg_round7", ok7 && bigR != nil, func() []string { return []string{eBytes(ssid), ePoint(bigR), p7} }) {
+		return
+	}
+	// round 9: the party's own U_i, T_i are what it opened in its SignRound8Message
+	p9, ok9 := peersOf(func(j int, p *pin) (string, bool) {
+		if p.m7 == nil || p.m8 == nil {
+			return "", false
+		}
+		return fmt.Sprintf("%d/%s/%s", j, natHex(p.m7.GetCommitment()), natsHex(p.m8.GetDeCommitment())), true
+	})
+	var ownU, ownT *crypto.ECPoint
+	if own.m8 != nil && len(own.m8.GetDeCommitment()) == 5 {
+		d := own.m8.GetDeCommitment()
+		ownU, _ = crypto.NewECPoint(ec, new(big.Int).SetBytes(d[1]), new(big.Int).SetBytes(d[2]))
+		ownT, _ = crypto.NewECPoint(ec, new(big.Int).SetBytes(d[3]), new(big.Int).SetBytes(d[4]))
+	}
+	judge(9, "ec_sg_round9", ok9 && ownU != nil && ownT != nil, func() []string { return []string{"1", fmt.Sprint(i), ePoint(ownU), ePoint(ownT), p9} })
 }
